@@ -156,6 +156,81 @@ fn efficacy(ctx: &Ctx, sample: &[Node]) -> Acc {
     })
 }
 
+/// Clause 3 on long texts: loops around a committing construct (look-around, atomic group,
+/// condition) whose VM-compiled body can succeed in more than one way, in front of a tail that
+/// fails. The reference commits, so its exploration is linear in the text; a construct that is
+/// not committed in the VM re-runs the continuation per leftover alternative (k^n).
+fn linear_families(_ctx: &Ctx) -> Acc {
+    use crate::ast::{Mode, Node::*, A};
+    let bx = |n: Node| Box::new(n);
+    let la = || Node::lit("a");
+    let amb: Vec<Node> = vec![
+        Alt(vec![la(), Look(bx(Node::lit("b")), false, true)]),
+        Alt(vec![la(), Assert(A::WordB), Assert(A::NotWordB)]),
+        Alt(vec![Look(bx(la()), false, false), la()]),
+        Alt(vec![Atomic(bx(la())), la()]),
+        Concat(vec![Repeat(bx(la()), 0, Some(1), Mode::Greedy), Look(bx(Empty), false, false)]),
+        Alt(vec![Node::group(la()), Concat(vec![Look(bx(Empty), false, false), Node::group(la())])]),
+    ];
+    let mut bodies: Vec<Node> = vec![];
+    for x in &amb {
+        bodies.push(Concat(vec![Look(bx(x.clone()), false, false), la()]));
+        bodies.push(Concat(vec![la(), Look(bx(x.clone()), false, false)]));
+        bodies.push(Concat(vec![Look(bx(Concat(vec![x.clone(), Node::lit("b")])), false, true), la()]));
+        bodies.push(Atomic(bx(Concat(vec![x.clone(), Look(bx(Empty), false, false)]))));
+        bodies.push(CondExpr(bx(x.clone()), bx(Empty), bx(la())));
+    }
+    // look-behinds need bodies of one length
+    for x in [Alt(vec![la(), Concat(vec![Look(bx(Empty), false, false), la()])]), Alt(vec![Atomic(bx(la())), Any(false)]), Alt(vec![Concat(vec![Assert(A::NotWordB), la()]), Concat(vec![la(), Look(bx(Empty), false, false)]), Any(false)])] {
+        bodies.push(Concat(vec![la(), Look(bx(x.clone()), true, false)]));
+        bodies.push(Concat(vec![la(), Look(bx(Concat(vec![Node::lit("b"), x.clone()])), true, true)]));
+    }
+    let tails = [Node::lit("c"), Concat(vec![Assert(A::WordB), Node::lit("c")]), Concat(vec![Look(bx(la()), false, true), Node::lit("b")])];
+    let mut items: Vec<(Node, String)> = vec![];
+    for body in &bodies {
+        for tail in &tails {
+            for (lo, hi, m) in [(0, None, Mode::Greedy), (1, None, Mode::Lazy), (2, Some(40), Mode::Greedy)] {
+                let p = Concat(vec![Repeat(bx(NonCap(bx(body.clone()))), lo, hi, m), tail.clone()]);
+                for n in [20usize, 24] {
+                    items.push((p.clone(), "a".repeat(n)));
+                }
+            }
+        }
+    }
+    par_run(&items, false, Some(EFF_CAP), |_, (p, t), acc| {
+        let s = p.print();
+        let Got::Val(re) = compile(&s) else {
+            acc.count("linear-families:compile-err");
+            return;
+        };
+        let Some((r, ng)) = refm::compile(p) else {
+            acc.count("linear-families:not-modelled");
+            return;
+        };
+        let (o, rsteps) = refm::search(&r, ng, t, 0, false, 60_000);
+        if o == refm::Out::Inconclusive {
+            acc.count("linear-families:reference-not-tiny");
+            return;
+        }
+        acc.evals += 1;
+        let _ = hook_take();
+        let a = find_from(&re, t, 0);
+        let h = acc.take_hooks();
+        acc.count("linear-families:runs");
+        acc.max("linear-families:backtracks-in-one-run", h.last_backtracks);
+        match &a {
+            Got::Err(e) if e == BT_ERR || e == SO_ERR => {
+                acc.violate(Violation::new("C07", "default-limits", &s, t, 0, "find", format!("no limit error (reference explores the case in {} steps)", rsteps), a.show()));
+            }
+            Got::StepCap => {
+                acc.violate(Violation::new("C07", "default-limits", &s, t, 0, "find", format!("an answer (reference explores the case in {} steps)", rsteps), format!("step cap of {} hit", EFF_CAP)));
+            }
+            Got::Panic(_) => acc.violate(Violation::new("C07", "panic", &s, t, 0, "find", "a value or Err".into(), a.show())),
+            _ => {}
+        }
+    })
+}
+
 fn look_depth(p: &Node) -> u32 {
     let below = p.children().iter().map(|c| look_depth(c)).max().unwrap_or(0);
     below + if matches!(p, Node::Look(..) | Node::CondExpr(..)) { 1 } else { 0 }
@@ -357,9 +432,10 @@ pub fn run(ctx: &Ctx) -> Outcome {
     let mut acc = acc;
     let n_fam = families().len();
     acc.merge(efficacy(ctx, &patterns));
+    acc.merge(linear_families(ctx));
     let mut out = Outcome::new(acc);
     out.distinct_nontrivial = out.acc.distinct;
-    out.rule = format!("{}{}; x all {} texts over 1-4 byte characters up to length 3. Per (pattern, text): run with the default limit, read backtracks B / VM steps S through the hook, then (1) for L in {{0,1,2,3,5,10,100,10^6,2^32,2^32+7,usize::MAX}} and the exact thresholds L = B and L = B-1: L >= B => same answer, L < B => BacktrackLimitExceeded or the same answer; (2) S <= (B+1)*256*|prog|*(chars+2)*prod(1+count), enforced online by a VM step cap of {} so a non-terminating run is observed as a cap hit; (3) if the reference explores the case within 5000 steps the default-limit run must not report StackOverflow / BacktrackLimitExceeded. (4) hook invariant on every run: no alternative is resumed without having been counted against the limit; (5) limit efficacy on long texts: {} catastrophic family patterns (ambiguous cores (?:a|aa){{n}}, (?:a(?=)|a){{n}}, split and lazy counted variants, n = 18 / 22, x 16 tails that fail through a different instruction each: negative / positive look-ahead and look-behind, literal, class delegate, \\b, $, \\z, atomic group, unset backreference, group condition, \\G) on a^(2n+3), and a seeded sample of the space on 5 texts of 20-26 characters, each under backtrack limits 100 and 5000: the run must end with BacktrackLimitExceeded or the answer after <= (min(B, L)+2)*K steps (families: K = 8*|prog|*(chars+2); sample: K = 64*|prog|*(chars+2)^(1+look-around depth)*prod(1+count)), step cap {}. Non-trivial: distinct VM patterns with B >= 1 on some text for which limits fell on both sides of B.", sp.describe, if ctx.tier == Tier::Quick { " + a seeded twelfth of the 4-node trees" } else { "" }, texts.len(), STEP_CAP, n_fam, EFF_CAP);
+    out.rule = format!("{}{}; x all {} texts over 1-4 byte characters up to length 3. Per (pattern, text): run with the default limit, read backtracks B / VM steps S through the hook, then (1) for L in {{0,1,2,3,5,10,100,10^6,2^32,2^32+7,usize::MAX}} and the exact thresholds L = B and L = B-1: L >= B => same answer, L < B => BacktrackLimitExceeded or the same answer; (2) S <= (B+1)*256*|prog|*(chars+2)*prod(1+count), enforced online by a VM step cap of {} so a non-terminating run is observed as a cap hit; (3) if the reference explores the case within 5000 steps the default-limit run must not report StackOverflow / BacktrackLimitExceeded. (4) hook invariant on every run: no alternative is resumed without having been counted against the limit; (5) limit efficacy on long texts: {} catastrophic family patterns (ambiguous cores (?:a|aa){{n}}, (?:a(?=)|a){{n}}, split and lazy counted variants, n = 18 / 22, x 16 tails that fail through a different instruction each: negative / positive look-ahead and look-behind, literal, class delegate, \\b, $, \\z, atomic group, unset backreference, group condition, \\G) on a^(2n+3), and a seeded sample of the space on 5 texts of 20-26 characters, each under backtrack limits 100 and 5000: the run must end with BacktrackLimitExceeded or the answer after <= (min(B, L)+2)*K steps (families: K = 8*|prog|*(chars+2); sample: K = 64*|prog|*(chars+2)^(1+look-around depth)*prod(1+count)), step cap {}. (6) clause 3 on long texts: loops ((*, +?, {{2,40}}) around a committing construct (look-ahead / look-behind, positive and negative, atomic group, condition) whose VM-compiled body can succeed in more than one way, in front of 3 failing tails, on a^20 and a^24 under the default limits: no limit error where the reference (which commits) explores the case within 60000 steps. Non-trivial: distinct VM patterns with B >= 1 on some text for which limits fell on both sides of B.", sp.describe, if ctx.tier == Tier::Quick { " + a seeded twelfth of the 4-node trees" } else { "" }, texts.len(), STEP_CAP, n_fam, EFF_CAP);
     out.assumptions = vec!["the step bound K is a calibrated constant with >= two orders of magnitude of slack over every legitimate run observed (maxima.steps/bound-ppm reports how close this run came, in millionths)".into()];
     let et = out.acc.get("exact-threshold-cases");
     let vm = out.acc.get("route:vm");
@@ -370,5 +446,6 @@ pub fn run(ctx: &Ctx) -> Outcome {
     let (fr, fl) = (out.acc.get("efficacy:family-runs"), out.acc.get("efficacy:family-runs-ended-by-the-limit"));
     out.require(!HOOKS || (fr > 0 && fl * 2 > fr), "the catastrophic families were not ended by the backtrack limit often enough to say anything");
     out.require(!HOOKS || et > 0, "the exact threshold L = B-1 was never observed to fail");
+    out.require(out.acc.get("linear-families:runs") > 100, "the linear families on long texts were not exercised");
     out
 }
